@@ -20,6 +20,12 @@ THEOREMS = [
     "Mpir.RadixDc.mpn_get_str_full_spec_partial",
     "Mpir.RadixDc.mpn_set_str_spec",
     "Mpir.RadixDc.mpn_set_str_full_spec",
+    "Mpir.Radix.mpz_out_str_spec",
+    "Mpir.Radix.mpz_inp_str_spec",
+    "Mpir.Radix.inp_out_roundtrip",
+    "Mpir.Radix.mpq_out_str_spec",
+    "Mpir.Radix.mpq_inp_str_spec",
+    "Mpir.Radix.mpq_inp_out_roundtrip",
 ]
 PINS = [("mpn/generic/get_str.c", "mpn_get_str"), ("mpn/generic/get_str.c", "mpn_dc_get_str"),
         ("mpn/generic/get_str.c", "mpn_sb_get_str"),
